@@ -448,4 +448,28 @@ example : (⟨15, 0⟩ : FRepr).digits 10 ≤ 2 * 1 ∧ ctxMul false 10 .halfAwa
   decide
 
 
+/-! ### non-vacuity of the hypothesis-carrying theorems above -/
+
+-- `fDivEuclid_spec`, `fDivEuclid_rem`, `fRemEuclid_exact` (unlimited result context: the remainder is exact)
+example : fDivEuclid 10 ⟨⟨-12345, -3⟩, 0⟩ ⟨⟨7, 0⟩, 0⟩ = .ok (-2) ∧
+    fRemEuclid 10 .halfAway coarseNone ⟨⟨-12345, -3⟩, 0⟩ ⟨⟨7, 0⟩, 0⟩ = .ok ⟨⟨1655, -3⟩, 0⟩ ∧
+    ctxMax (0 : Nat) 0 = 0 := by decide
+
+-- `fRemEuclid_exact`, limited context: a remainder of 2 digits fits `Context::max = 3`
+example : fRemEuclid 10 .halfAway coarseNone ⟨⟨25, -1⟩, 3⟩ ⟨⟨1, 0⟩, 2⟩ = .ok ⟨⟨5, -1⟩, 3⟩ ∧
+    (FRepr.new 10 ((alignAsInt 10 ⟨25, -1⟩ ⟨1, 0⟩).1 % (alignAsInt 10 ⟨25, -1⟩ ⟨1, 0⟩).2) 0).digits 10 ≤ ctxMax 3 2 := by
+  decide
+
+-- `reprRem_value`: the fit hypothesis on a concrete tie (7 % 2 at two digits)
+example : (FRepr.new 10 (remSignif 10 ⟨7, 0⟩ ⟨2, 0⟩) (min 0 0)).digits 10 ≤ 2 := by decide
+
+-- `operator_eq_context_div`: a dividend that is neither pre-shrunk nor over-long (exact digit counts as estimators)
+example : (2 : Nat) ≠ 0 ∧ ¬ (¬ (⟨1, 0⟩ : FRepr).isZero ∧ digitsI 10 1 > digitsI 10 3 + 2) ∧
+    (⟨1, 0⟩ : FRepr).digits 10 ≤ 2 + (⟨3, 0⟩ : FRepr).digits 10 ∧ opDiv 10 .halfAway 2 ⟨1, 0⟩ ⟨3, 0⟩ = .ok ⟨33, -2⟩ := by
+  decide
+
+-- `operator_eq_context_addsub_nonzero`
+example : (⟨12345, 0⟩ : FRepr).isZero = false ∧ (⟨1, -1⟩ : FRepr).isZero = false := by decide
+
+
 end Dashu.Props.C15Values
